@@ -9,17 +9,32 @@ use std::collections::HashMap;
 use std::panic::{catch_unwind, AssertUnwindSafe};
 use std::time::Duration;
 
+/// The custom easings are four distinct **zero-sized** types: a `Box<dyn EasingFunction>` of a ZST does not allocate,
+/// so all of them live at the same (dangling) address — anything that identifies an easing by the address of its
+/// function object confuses them.  `Cust(k)` is the same menu called directly (op `easeraw`).
+#[derive(Clone, Debug)] pub struct C0;
+#[derive(Clone, Debug)] pub struct C1;
+#[derive(Clone, Debug)] pub struct C2;
+#[derive(Clone, Debug)] pub struct C3;
+fn cust(k: u32, x: f32) -> f32 {
+    match k {
+        0 => x * x,
+        1 => 1.0 - (1.0 - x) * (1.0 - x),
+        2 => x * 0.5 + 0.25,
+        _ => CubicBezierEasing::new(0.3, 0.1, 0.6, 0.9).calc(x),
+    }
+}
+impl EasingFunction for C0 { fn calc(&self, x: f32) -> f32 { cust(0, x) } }
+impl EasingFunction for C1 { fn calc(&self, x: f32) -> f32 { cust(1, x) } }
+impl EasingFunction for C2 { fn calc(&self, x: f32) -> f32 { cust(2, x) } }
+impl EasingFunction for C3 { fn calc(&self, x: f32) -> f32 { cust(3, x) } }
 #[derive(Clone, Debug)]
 pub struct Cust(pub u32);
 impl EasingFunction for Cust {
-    fn calc(&self, x: f32) -> f32 {
-        match self.0 {
-            0 => x * x,
-            1 => 1.0 - (1.0 - x) * (1.0 - x),
-            2 => x * 0.5 + 0.25,
-            _ => CubicBezierEasing::new(0.3, 0.1, 0.6, 0.9).calc(x),
-        }
-    }
+    fn calc(&self, x: f32) -> f32 { cust(self.0, x) }
+}
+pub fn custom_easing(k: u32) -> Easing {
+    match k { 0 => Easing::Custom(Box::new(C0)), 1 => Easing::Custom(Box::new(C1)), 2 => Easing::Custom(Box::new(C2)), _ => Easing::Custom(Box::new(C3)) }
 }
 
 pub const EASING_NAMES: [&str; 29] = [
@@ -31,7 +46,7 @@ pub const EASING_NAMES: [&str; 29] = [
 pub fn parse_easing(s: &str) -> Easing {
     if let Some(n) = s.strip_prefix('c') {
         if let Ok(k) = n.parse::<u32>() {
-            return Easing::Custom(Box::new(Cust(k)));
+            return custom_easing(k);
         }
     }
     match s {
